@@ -263,12 +263,13 @@ def compare_fpexc(chk, name, binary, prop_key_prefix, blocks, apis=("c", "cxx", 
     return nbad
 
 
-# ---- independent spec vs model --------------------------------------------
+# ---- executable spec vs model ---------------------------------------------
 
 def spec_blocks_hashes(blocks):
-    """FNV hashes (as Driver/Half.lean blockHash) of the independently written Python spec
-    halfspec.spec_f2h (exact integers, bisection over the ordered list of binary16 values) over
-    each listed block; pure Python, ~0.1 s per block per core."""
+    """FNV hashes (as Driver/Half.lean blockHash) of the Python executable spec halfspec.spec_f2h over each listed
+    block; pure Python, ~0.1 s per block per core.  halfspec's ROUNDING step (exact integers, bisection over the ordered
+    list of binary16 values, midpoint comparison) is written independently of the Lean proof; its DENOTATION
+    (hval24/fval149) is the same closed form as Lean's hval/fval — see compare_spec_cpython for an independent one."""
     from concurrent.futures import ProcessPoolExecutor
     with ProcessPoolExecutor(max_workers=min(lib.NCPU, 16)) as ex:
         return list(ex.map(_spec_block_hash, blocks, chunksize=max(1, len(blocks) // 64)))
@@ -305,7 +306,7 @@ def compare_spec_model(chk, prop_key_prefix, model_blocks, model_h2f, blocks):
                                 "spec_rne16": "0x%04x" % halfspec.spec_f2h(lo + i)})
                     key, found = key + ":0x%08x" % (lo + i), True
                     break
-        chk.fail("spec-vs-model:f2h", key, "the Lean model f2h differs from the independent executable specification", rep, found)
+        chk.fail("spec-vs-model:f2h", key, "the Lean model f2h differs from the Python executable specification (tools/halfspec.py)", rep, found)
     sph = [halfspec.spec_h2f(h) for h in range(65536)]
     okh = sph == model_h2f
     chk.oblige("spec-vs-model:h2f halfspec.py = Lean model h2f:all-2^16", "correspondence", okh)
@@ -313,7 +314,7 @@ def compare_spec_model(chk, prop_key_prefix, model_blocks, model_h2f, blocks):
     if not okh:
         d = [h for h in range(min(65536, len(model_h2f))) if sph[h] != model_h2f[h]]
         chk.fail("spec-vs-model:h2f", prop_key_prefix + ":spec-vs-model:h2f" + (":0x%04x" % d[0] if d else ""),
-                 "the Lean model h2f differs from the independent executable specification",
+                 "the Lean model h2f differs from the Python executable specification (tools/halfspec.py)",
                  {"half_bits": "0x%04x" % d[0], "model": "0x%08x" % model_h2f[d[0]], "spec_exact": "0x%08x" % sph[d[0]]} if d else {},
                  bool(d))
     return ok and okh
